@@ -43,7 +43,7 @@ MANY = {"quick": (1, 2, 100, 1023, 1024, 1025, 4095, 4096, 4097, 5000), "thoroug
 
 
 def plan(tier, seed):
-    return [(tier,) + u for u in ep.plan(BOUNDS[tier])] + [(tier, "many", n) for n in MANY[tier]]
+    return [(tier,) + u for u in ep.plan(BOUNDS[tier])] + [(tier, "many", n) for n in MANY[tier]] + ep.interp_units(tier)
 
 
 def run_many(rec, n):
